@@ -320,7 +320,7 @@ pub fn monitor(tier: Tier) -> Monitor {
             "produced-so-far is read through the snapshot hook (the sink alone lags by up to a window, which the property does not bound)".into(),
             "the sink used is append-only, so the final prefix check covers every earlier moment".into(),
         ],
-        families: vec![Family { name: "streams", count: tier.pick(400, 12_000), priority: false, enumerated: false, run: fam_streams }],
+        families: vec![Family { name: "streams", count: tier.pick(800, 16_000), priority: false, enumerated: false, run: fam_streams }],
         label,
         floors,
         summarize: no_summary,
